@@ -9,6 +9,7 @@ result at the node's place puts back the original instance (up to `normN`) witho
 set_option linter.unusedSimpArgs false
 namespace LyModel.Diff
 open LyModel LyModel.Tree
+variable {fx : Fixes}
 
 /-! ## small facts about the pieces of `reverse` -/
 
@@ -48,9 +49,9 @@ end
 theorem kids_revDup (x : DNode) : (revDup x).kids = revDupL x.kids := by cases x <;> rfl
 
 theorem ownOp_revDup (x : DNode) : ownOp (revDup x) = ownOp x := by simp [ownOp, getMeta_def]
-theorem effOp_revDup (inh : Option Op) (x : DNode) : effOp inh (revDup x) = effOp inh x := by simp [effOp, ownOp_revDup]
-theorem childInh_revDup (inh : Option Op) (x : DNode) : childInh inh (revDup x) = childInh inh x := by
-  simp [childInh, ownOp_revDup]
+theorem effOp_revDup (inh : Option Op) (x : DNode) : effOp (revDup x) inh = effOp x inh := by simp [effOp, ownOp_revDup]
+theorem childInh_revDup (inh : Option Op) (x : DNode) : childInhOf (revDup x) inh = childInhOf x inh := by
+  simp [childInhOf, ownOp_revDup]
 theorem metaOK_revDup {x : DNode} (h : MetaOK x) : MetaOK (revDup x) := by simpa [MetaOK] using h
 
 mutual
@@ -184,18 +185,18 @@ theorem exactE_base {S : Schema} {inh : Option Op} {e : Option DNode} {c : DNode
     exact ⟨domB_iff.mp h.1.1.1, metaOKB_iff.mp h.1.1.2, h.1.2⟩
 
 theorem exactE_create {S : Schema} {inh : Option Op} {e : Option DNode} {c : DNode} (h : exactE S inh e c = true)
-    (hop : effOp inh c = some .create) : e = none ∧ plainL c.kids = true ∧ goodT S c.kids = true := by
+    (hop : effOp c inh = some .create) : e = none ∧ plainL c.kids = true ∧ goodT S c.kids = true := by
   cases c <;> simp only [exactE, Bool.and_eq_true, hop] at h <;> cases e <;> simp_all [DNode.kids, plainL, goodT_nil]
 
 theorem exactE_delete {S : Schema} {inh : Option Op} {e : Option DNode} {c : DNode} (h : exactE S inh e c = true)
-    (hop : effOp inh c = some .delete) :
+    (hop : effOp c inh = some .delete) :
     ∃ x, e = some x ∧ dataEq true x c = true ∧ plainL c.kids = true ∧ goodT S c.kids = true := by
   cases c <;> simp only [exactE, Bool.and_eq_true, hop] at h <;> cases e <;> simp_all [DNode.kids, plainL, goodT_nil]
 
 theorem setKids_kids (x : DNode) : x.setKids x.kids = x := by cases x <;> rfl
 
 theorem revNode_create {S : Schema} {inh : Option Op} {c : DNode} (hk : S.isKey c.sid = false)
-    (hop : effOp inh c = some .create) :
+    (hop : effOp c inh = some .create) :
     revNode S inh c = .ok ((changeOp c .delete).setKids (c.kids.map fun k => (removeOp .create k).1)) := by
   cases c with
   | inner s f m ks =>
@@ -206,7 +207,7 @@ theorem revNode_create {S : Schema} {inh : Option Op} {c : DNode} (hk : S.isKey 
     simp [revNode, hk, hop, DNode.kids, changeOp, DNode.setMetas, DNode.setKids]
 
 theorem revNode_delete {S : Schema} {inh : Option Op} {c : DNode} (hk : S.isKey c.sid = false)
-    (hop : effOp inh c = some .delete) :
+    (hop : effOp c inh = some .delete) :
     revNode S inh c = .ok ((changeOp c .create).setKids (c.kids.map fun k => (removeOp .delete k).1)) := by
   cases c with
   | inner s f m ks =>
@@ -223,8 +224,8 @@ theorem findForApply_congr_fun {S : Schema} {l : List DNode} {p p' : DNode} (h :
 
 /-- `create` of a node whose subtree is plain and good -/
 theorem apply_create_node {S : Schema} (K : KeyOrder S) {n : Nat} {hp : Bool} {inh : Option Op} {c : DNode} {L : List DNode}
-    (hh : c.height ≤ n) (hop : effOp inh c = some .create) (hpl : plainL c.kids = true) (hg : goodN S c = true) :
-    applyNode S n L hp inh c = .ok (insertNode S L (mkCreated c)) := by
+    (hh : c.height ≤ n) (hop : effOp c inh = some .create) (hpl : plainL c.kids = true) (hg : goodN S c = true) :
+    applyNode S fx n L hp inh c = .ok (insertNode S L (mkCreated c)) := by
   obtain ⟨k, rfl⟩ : ∃ k, n = k + 1 := ⟨n - 1, by have := height_pos c; omega⟩
   have hd := goodN_dom hg
   rw [applyNode_succ_nuo hd.nuo]
@@ -236,7 +237,7 @@ theorem apply_create_node {S : Schema} (K : KeyOrder S) {n : Nat} {hp : Bool} {i
       simp only [DNode.height] at hh
       simp only [DNode.kids]
       omega
-  have := applyF_create K (n := k) (hp := true) (fun c' L' h1 h2 h3 => apply_create_plain K k true c' L' h1 h2 h3)
+  have := applyF_create (fx := fx) K (n := k) (hp := true) (fun c' L' h1 h2 h3 => apply_create_plain (fx := fx) K k true c' L' h1 h2 h3)
     (noKeys S c.kids) (keysOf S c.kids) (by rw [keysOf_append_noKeys]; exact goodN_kids hg)
     (plainL_of_sub hpl (fun x hx => (List.dropWhile_sublist _).subset hx))
     (Nat.le_trans (heightL_noKeys_le S c.kids) hkids)
@@ -246,45 +247,45 @@ theorem apply_create_node {S : Schema} (K : KeyOrder S) {n : Nat} {hp : Bool} {i
 /-! ## specifications -/
 
 /-- the reversed node `c'` undoes the forward effect `e ↦ e1` wherever `e1` sits at the place of `c` -/
-def Restores (S : Schema) (n : Nat) (hp : Bool) (inh : Option Op) (c c' : DNode) (e1 e : Option DNode) : Prop :=
+def Restores (S : Schema) (fx : Fixes) (n : Nat) (hp : Bool) (inh : Option Op) (c c' : DNode) (e1 e : Option DNode) : Prop :=
   ∀ X, goodT S X = true → KeysBelow S c X → look S X c = e1 →
-    ∃ X', applyNode S n X hp inh c' = .ok X' ∧ goodT S X' = true ∧ keysOf S X' = keysOf S X ∧ Local S c X X' ∧
+    ∃ X', applyNode S fx n X hp inh c' = .ok X' ∧ goodT S X' = true ∧ keysOf S X' = keysOf S X ∧ Local S c X X' ∧
       (look S X' c).map normN = e.map normN
 
-def NodeRevConcl (S : Schema) (c : DNode) (n : Nat) (hp : Bool) (inh : Option Op) (e : Option DNode) : Prop :=
+def NodeRevConcl (S : Schema) (fx : Fixes) (c : DNode) (n : Nat) (hp : Bool) (inh : Option Op) (e : Option DNode) : Prop :=
   ∃ c', revNode S inh (revDup c) = .ok c' ∧ c'.height = c.height ∧ c'.sid = c.sid ∧
     (∀ x, matchP S c' x = matchP S c x) ∧
     ∀ L, goodT S L = true → KeysBelow S c L → look S L c = e →
-      ∃ L', applyNode S n L hp inh c = .ok L' ∧ goodT S L' = true ∧ keysOf S L' = keysOf S L ∧ Local S c L L' ∧
-        Restores S n hp inh c c' (look S L' c) e
+      ∃ L', applyNode S fx n L hp inh c = .ok L' ∧ goodT S L' = true ∧ keysOf S L' = keysOf S L ∧ Local S c L L' ∧
+        Restores S fx n hp inh c c' (look S L' c) e
 
-def NodeRevSpec (S : Schema) (c : DNode) : Prop :=
+def NodeRevSpec (S : Schema) (fx : Fixes) (c : DNode) : Prop :=
   ∀ (n : Nat) (hp : Bool) (inh : Option Op) (e : Option DNode), c.height ≤ n → (∀ x, e = some x → goodN S x = true) →
-    exactE S inh e c = true → NodeRevConcl S c n hp inh e
+    exactE S inh e c = true → NodeRevConcl S fx c n hp inh e
 
 /-- the diff children that are applied: all of them, or all but the leading list keys -/
 def dk (S : Schema) (leading : Bool) (D : List DNode) : List DNode := if leading then noKeys S D else D
 
-def ListRevSpec (S : Schema) (D : List DNode) : Prop :=
+def ListRevSpec (S : Schema) (fx : Fixes) (D : List DNode) : Prop :=
   ∀ (n : Nat) (hp : Bool) (inh : Option Op) (L : List DNode) (leading : Bool), heightL D ≤ n → goodT S L = true →
     exactK S inh L leading D = true →
     ∃ R, revL S inh (revDupL D) = .ok R ∧ heightL R = heightL D ∧ (dk S leading R).isEmpty = (dk S leading D).isEmpty ∧
       normL (keysOf S R) = normL (keysOf S D) ∧
-      ∃ L1, applyF S n hp inh (dk S leading D) L = .ok L1 ∧ goodT S L1 = true ∧ keysOf S L1 = keysOf S L ∧
+      ∃ L1, applyF S fx n hp inh (dk S leading D) L = .ok L1 ∧ goodT S L1 = true ∧ keysOf S L1 = keysOf S L ∧
         (∀ q, Dom S q → (∀ c ∈ dk S leading D, matchP S c q = false) → look S L1 q = look S L q) ∧
         ∀ X, goodT S X = true → keysOf S X = keysOf S L → (∀ c ∈ dk S leading D, look S X c = look S L1 c) →
-          ∃ X2, applyF S n hp inh (dk S leading R) X = .ok X2 ∧ goodT S X2 = true ∧ keysOf S X2 = keysOf S X ∧
+          ∃ X2, applyF S fx n hp inh (dk S leading R) X = .ok X2 ∧ goodT S X2 = true ∧ keysOf S X2 = keysOf S X ∧
             (∀ q, Dom S q → (∀ c ∈ dk S leading D, matchP S c q = false) → look S X2 q = look S X q) ∧
             (∀ c ∈ dk S leading D, (look S X2 c).map normN = (look S L c).map normN)
 
 /-! ## create and delete (leaf, leaf-list instance, container, list instance alike) -/
 
-theorem effOp_changeOp {inh : Option Op} {d : DNode} (h : MetaOK d) (op : Op) : effOp inh (changeOp d op) = some op := by
+theorem effOp_changeOp {inh : Option Op} {d : DNode} (h : MetaOK d) (op : Op) : effOp (changeOp d op) inh = some op := by
   simp [effOp, ownOp_changeOp h]
 
 theorem nodeRev_create {S : Schema} (K : KeyOrder S) {c : DNode} {n : Nat} {hp : Bool} {inh : Option Op} {e : Option DNode}
-    (hh : c.height ≤ n) (hex : exactE S inh e c = true) (hop : effOp inh c = some .create) :
-    NodeRevConcl S c n hp inh e := by
+    (hh : c.height ≤ n) (hex : exactE S inh e c = true) (hop : effOp c inh = some .create) :
+    NodeRevConcl S fx c n hp inh e := by
   obtain ⟨hd, hm, hk⟩ := exactE_base hex
   obtain ⟨rfl, hpl, hgk⟩ := exactE_create hex hop
   have hgc : goodN S c = true := goodN_iff.mpr ⟨hd, hgk⟩
@@ -314,8 +315,8 @@ theorem nodeRev_create {S : Schema} (K : KeyOrder S) {c : DNode} {n : Nat} {hp :
   simp only [findForApply_congr_fun hmatch, hi]
 
 theorem nodeRev_delete {S : Schema} (K : KeyOrder S) {c : DNode} {n : Nat} {hp : Bool} {inh : Option Op} {e : Option DNode}
-    (hh : c.height ≤ n) (hex : exactE S inh e c = true) (hop : effOp inh c = some .delete) :
-    NodeRevConcl S c n hp inh e := by
+    (hh : c.height ≤ n) (hex : exactE S inh e c = true) (hop : effOp c inh = some .delete) :
+    NodeRevConcl S fx c n hp inh e := by
   obtain ⟨hd, hm, hk⟩ := exactE_base hex
   obtain ⟨x, rfl, hxc, hpl, hgk⟩ := exactE_delete hex hop
   have hxn : normN x = normN c := (dataEq_iff_norm x c).mp hxc
@@ -373,14 +374,13 @@ theorem isTerm_of_leaf {S : Schema} {s : Nat} (h : S.isKind s .leaf = true) : S.
 theorem isLL_of_leaf {S : Schema} {s : Nat} (h : S.isKind s .leaf = true) : isLL S s = false := by
   have := isKind_iff.mp h
   simp [isLL, Schema.isKind, this]
-  constructor <;> decide
 
 theorem matchP_leaf {S : Schema} {d x : DNode} (h : S.isKind d.sid .leaf = true) (hs : x.sid = d.sid) :
     matchP S d x = true := by
   simp [matchP, hs, isLL_of_leaf h]
 
 theorem exactE_replace {S : Schema} {inh : Option Op} {e : Option DNode} {c : DNode} (h : exactE S inh e c = true)
-    (hop : effOp inh c = some .replace) :
+    (hop : effOp c inh = some .replace) :
     c.isTerm = true ∧ ∃ x, e = some x ∧ S.isKind c.sid .leaf = true ∧ getMeta c "orig-value" = some x.val ∧
       getMeta c "orig-default" = some (boolBytes x.flags.dflt) ∧ c.val ≠ x.val := by
   cases c with
@@ -394,7 +394,7 @@ theorem exactE_replace {S : Schema} {inh : Option Op} {e : Option DNode} {c : DN
       exact ⟨rfl, x, rfl, h.2.1.1.1, h.2.1.1.2, h.2.1.2, h.2.2⟩
 
 theorem exactE_none_term {S : Schema} {inh : Option Op} {e : Option DNode} {c : DNode} (h : exactE S inh e c = true)
-    (hop : effOp inh c = some .none) (ht : c.isTerm = true) :
+    (hop : effOp c inh = some .none) (ht : c.isTerm = true) :
     ∃ x, e = some x ∧ x.val = c.val ∧ getMeta c "orig-default" = some (boolBytes x.flags.dflt) := by
   cases c with
   | inner s f m ks => simp [DNode.isTerm] at ht
@@ -410,8 +410,8 @@ theorem exactE_none_term {S : Schema} {inh : Option Op} {e : Option DNode} {c : 
 theorem apply_replace_leaf {S : Schema} (K : KeyOrder S) {Y : List DNode} {c r y : DNode} {k : Nat} {hp : Bool} {inh : Option Op}
     (hgY : goodT S Y = true) (hc : Dom S c) (hck : S.isKey c.sid = false) (hlY : look S Y c = some y)
     (hrm : ∀ x, matchP S r x = matchP S c x)
-    (hrs : r.sid = c.sid) (hleaf : S.isKind c.sid .leaf = true) (hop : effOp inh r = some .replace) (hne : y.val ≠ r.val) :
-    ∃ Y', applyNode S (k + 1) Y hp inh r = .ok Y' ∧ goodT S Y' = true ∧ keysOf S Y' = keysOf S Y ∧ Local S c Y Y' ∧
+    (hrs : r.sid = c.sid) (hleaf : S.isKind c.sid .leaf = true) (hop : effOp r inh = some .replace) (hne : y.val ≠ r.val) :
+    ∃ Y', applyNode S fx (k + 1) Y hp inh r = .ok Y' ∧ goodT S Y' = true ∧ keysOf S Y' = keysOf S Y ∧ Local S c Y Y' ∧
       look S Y' c = some ((y.setVal r.val).setFlags r.flags) := by
   have hym := look_mem hlY
   have hgY' := goodT_goodL hgY
@@ -437,8 +437,8 @@ theorem apply_replace_leaf {S : Schema} (K : KeyOrder S) {Y : List DNode} {c r y
 theorem apply_none_term {S : Schema} (K : KeyOrder S) {Y : List DNode} {c r y : DNode} {k : Nat} {hp : Bool} {inh : Option Op}
     (hgY : goodT S Y = true) (hc : Dom S c) (hck : S.isKey c.sid = false) (hlY : look S Y c = some y)
     (hrm : ∀ x, matchP S r x = matchP S c x)
-    (hrs : r.sid = c.sid) (hop : effOp inh r = some .none) (hyt : y.isTerm = true) :
-    ∃ Y', applyNode S (k + 1) Y hp inh r = .ok Y' ∧ goodT S Y' = true ∧ keysOf S Y' = keysOf S Y ∧ Local S c Y Y' ∧
+    (hrs : r.sid = c.sid) (hop : effOp r inh = some .none) (hyt : y.isTerm = true) :
+    ∃ Y', applyNode S fx (k + 1) Y hp inh r = .ok Y' ∧ goodT S Y' = true ∧ keysOf S Y' = keysOf S Y ∧ Local S c Y Y' ∧
       look S Y' c = some (y.setDflt r.flags.dflt) := by
   have hym := look_mem hlY
   have hgY' := goodT_goodL hgY
@@ -484,7 +484,7 @@ theorem revValue_spec {t : DNode} {ov : Bytes} (h : getMeta t "orig-value" = som
   simp [this]
 
 theorem revNode_term_replace {S : Schema} {inh : Option Op} {c : DNode} (ht : c.isTerm = true) (hk : S.isKey c.sid = false)
-    (hop : effOp inh c = some .replace) : revNode S inh c = revReplace S c := by
+    (hop : effOp c inh = some .replace) : revNode S inh c = revReplace S c := by
   cases c with
   | inner => simp [DNode.isTerm] at ht
   | term s f m v =>
@@ -492,7 +492,7 @@ theorem revNode_term_replace {S : Schema} {inh : Option Op} {c : DNode} (ht : c.
     simp [revNode, hk, hop]
 
 theorem revNode_term_none {S : Schema} {inh : Option Op} {c : DNode} (ht : c.isTerm = true) (hk : S.isKey c.sid = false)
-    (hop : effOp inh c = some .none) : revNode S inh c = revNone S c := by
+    (hop : effOp c inh = some .none) : revNode S inh c = revNone S c := by
   cases c with
   | inner => simp [DNode.isTerm] at ht
   | term s f m v =>
@@ -507,7 +507,7 @@ theorem height_term {c : DNode} (h : c.isTerm = true) : c.height = 1 := by
   cases c <;> simp_all [DNode.isTerm, DNode.height]
 
 theorem effOp_of_getMeta {inh : Option Op} {d d' : DNode} (h : getMeta d' "operation" = getMeta d "operation") :
-    effOp inh d' = effOp inh d := by
+    effOp d' inh = effOp d inh := by
   simp [effOp, ownOp, h]
 
 theorem kids_term {c : DNode} (h : c.isTerm = true) : c.kids = [] := by
@@ -518,8 +518,8 @@ theorem normN_term_eq {x y : DNode} (hx : x.isTerm = true) (hy : y.isTerm = true
   cases x <;> cases y <;> simp_all [normN, DNode.isTerm, DNode.sid, DNode.val, DNode.flags]
 
 theorem nodeRev_replace {S : Schema} (K : KeyOrder S) {c : DNode} {n : Nat} {hp : Bool} {inh : Option Op} {e : Option DNode}
-    (hh : c.height ≤ n) (hex : exactE S inh e c = true) (hop : effOp inh c = some .replace) :
-    NodeRevConcl S c n hp inh e := by
+    (hh : c.height ≤ n) (hex : exactE S inh e c = true) (hop : effOp c inh = some .replace) :
+    NodeRevConcl S fx c n hp inh e := by
   obtain ⟨hd, hm, hk⟩ := exactE_base hex
   obtain ⟨hct, x, rfl, hleaf, hov, hod, hne⟩ := exactE_replace hex hop
   obtain ⟨k, rfl⟩ : ∃ k, n = k + 1 := ⟨n - 1, by have := height_pos c; omega⟩
@@ -545,7 +545,7 @@ theorem nodeRev_replace {S : Schema} (K : KeyOrder S) {c : DNode} {n : Nat} {hp 
     show (((revDup c).setVal x.val).setMetas _).val = x.val
     rw [val_setMetas, val_setVal_term (by simpa using hct)]
   have hcd : c'.flags.dflt = x.flags.dflt := by rw [hdf', boolBytes_eq_true]
-  have hcop : effOp inh c' = some .replace := by
+  have hcop : effOp c' inh = some .replace := by
     rw [effOp_of_getMeta hop']
     have : getMeta t1 "operation" = getMeta c "operation" := by
       show getMeta (((revDup c).setVal x.val).setMetas _) "operation" = _
@@ -586,8 +586,8 @@ theorem nodeRev_replace {S : Schema} (K : KeyOrder S) {c : DNode} {n : Nat} {hp 
   · rw [flags_setFlags, hcd]
 
 theorem nodeRev_none_term {S : Schema} (K : KeyOrder S) {c : DNode} {n : Nat} {hp : Bool} {inh : Option Op} {e : Option DNode}
-    (hh : c.height ≤ n) (hex : exactE S inh e c = true) (hop : effOp inh c = some .none) (hct : c.isTerm = true) :
-    NodeRevConcl S c n hp inh e := by
+    (hh : c.height ≤ n) (hex : exactE S inh e c = true) (hop : effOp c inh = some .none) (hct : c.isTerm = true) :
+    NodeRevConcl S fx c n hp inh e := by
   obtain ⟨hd, hm, hk⟩ := exactE_base hex
   obtain ⟨x, rfl, hxv, hod⟩ := exactE_none_term hex hop hct
   obtain ⟨k, rfl⟩ : ∃ k, n = k + 1 := ⟨n - 1, by have := height_pos c; omega⟩
@@ -600,7 +600,7 @@ theorem nodeRev_none_term {S : Schema} (K : KeyOrder S) {c : DNode} {n : Nat} {h
     exact hc'
   have hcs : c'.sid = c.sid := by rw [hs']; simp
   have hcd : c'.flags.dflt = x.flags.dflt := by rw [hdf', boolBytes_eq_true]
-  have hcop : effOp inh c' = some .none := by
+  have hcop : effOp c' inh = some .none := by
     rw [effOp_of_getMeta hop', effOp_revDup]
     exact hop
   have hmatch : ∀ y, matchP S c' y = matchP S c y := fun y =>
@@ -630,8 +630,8 @@ theorem nodeRev_none_term {S : Schema} (K : KeyOrder S) {c : DNode} {n : Nat} {h
 /-! ## inner nodes with operation `none`, and sibling lists -/
 
 theorem exactE_none_inner {S : Schema} {inh : Option Op} {e : Option DNode} {s : Nat} {f : Flags} {m : List Meta}
-    {ks : List DNode} (h : exactE S inh e (.inner s f m ks) = true) (hop : effOp inh (.inner s f m ks) = some .none) :
-    ∃ x, e = some x ∧ (noKeys S ks).isEmpty = false ∧ exactK S (childInh inh (.inner s f m ks)) x.kids true ks = true := by
+    {ks : List DNode} (h : exactE S inh e (.inner s f m ks) = true) (hop : effOp (.inner s f m ks) inh = some .none) :
+    ∃ x, e = some x ∧ (noKeys S ks).isEmpty = false ∧ exactK S (childInhOf (.inner s f m ks) inh) x.kids true ks = true := by
   simp only [exactE, Bool.and_eq_true, hop] at h
   cases e with
   | none => simp at h
@@ -727,12 +727,12 @@ theorem kids_inner (s : Nat) (f : Flags) (m : List Meta) (ks : List DNode) : (DN
 theorem ownOp_congr_metas {d d' : DNode} (h : d'.metas = d.metas) : ownOp d' = ownOp d := by
   simp only [ownOp, getMeta_def, h]
 
-theorem effOp_congr_metas {inh : Option Op} {d d' : DNode} (h : d'.metas = d.metas) : effOp inh d' = effOp inh d := by
+theorem effOp_congr_metas {inh : Option Op} {d d' : DNode} (h : d'.metas = d.metas) : effOp d' inh = effOp d inh := by
   simp only [effOp, ownOp_congr_metas h]
 
 theorem childInh_congr_metas {inh : Option Op} {d d' : DNode} (h : d'.metas = d.metas) :
-    childInh inh d' = childInh inh d := by
-  simp only [childInh, ownOp_congr_metas h]
+    childInhOf d' inh = childInhOf d inh := by
+  simp only [childInhOf, ownOp_congr_metas h]
 
 theorem height_inner_le {s : Nat} {f : Flags} {m : List Meta} {ks : List DNode} {k : Nat}
     (h : (DNode.inner s f m ks).height ≤ k + 1) : heightL ks ≤ k := by
@@ -741,10 +741,10 @@ theorem height_inner_le {s : Nat} {f : Flags} {m : List Meta} {ks : List DNode} 
 
 /-- operation `none` on a container / list instance: the children are handled by `ListRevSpec` -/
 theorem nodeRev_none_inner {S : Schema} (K : KeyOrder S) {s : Nat} {f : Flags} {m : List Meta} {ks : List DNode}
-    (IH : ListRevSpec S ks) {n : Nat} {hp : Bool} {inh : Option Op} {e : Option DNode}
+    (IH : ListRevSpec S fx ks) {n : Nat} {hp : Bool} {inh : Option Op} {e : Option DNode}
     (hh : (DNode.inner s f m ks).height ≤ n) (hge : ∀ x, e = some x → goodN S x = true)
-    (hex : exactE S inh e (.inner s f m ks) = true) (hop : effOp inh (.inner s f m ks) = some .none) :
-    NodeRevConcl S (.inner s f m ks) n hp inh e := by
+    (hex : exactE S inh e (.inner s f m ks) = true) (hop : effOp (.inner s f m ks) inh = some .none) :
+    NodeRevConcl S fx (.inner s f m ks) n hp inh e := by
   obtain ⟨hd, hm, hk⟩ := exactE_base hex
   obtain ⟨x, rfl, hne, hexk⟩ := exactE_none_inner hex hop
   have hgx : goodN S x = true := hge x rfl
@@ -753,7 +753,7 @@ theorem nodeRev_none_inner {S : Schema} (K : KeyOrder S) {s : Nat} {f : Flags} {
   obtain ⟨k, rfl⟩ : ∃ k, n = k + 1 := ⟨n - 1, by have := height_pos (DNode.inner s f m ks); omega⟩
   have hks : heightL ks ≤ k := height_inner_le hh
   obtain ⟨R, hR, hRh, hRe, hRk, K1, hK1, hgK1, hkK1, hloc1, hback⟩ :=
-    IH k true (childInh inh (.inner s f m ks)) x.kids true hks hgxk hexk
+    IH k true (childInhOf (.inner s f m ks) inh) x.kids true hks hgxk hexk
   have hdkD : dk S true ks = noKeys S ks := by simp [dk]
   have hdkR : dk S true R = noKeys S R := by simp [dk]
   rw [hdkD] at hK1 hloc1 hback
@@ -761,17 +761,17 @@ theorem nodeRev_none_inner {S : Schema} (K : KeyOrder S) {s : Nat} {f : Flags} {
   rw [hdkR] at hback
   -- the reversed node
   let c' : DNode := .inner s { dflt := f.dflt, new := true } m R
-  have hci : childInh inh (DNode.inner s { dflt := f.dflt, new := true } m (revDupL ks)) = childInh inh (.inner s f m ks) :=
+  have hci : childInhOf (DNode.inner s { dflt := f.dflt, new := true } m (revDupL ks)) inh = childInhOf (.inner s f m ks) inh :=
     childInh_congr_metas (d := .inner s f m ks) (d' := .inner s { dflt := f.dflt, new := true } m (revDupL ks)) rfl
-  have hopt : effOp inh (DNode.inner s { dflt := f.dflt, new := true } m (revDupL ks)) = some .none :=
+  have hopt : effOp (DNode.inner s { dflt := f.dflt, new := true } m (revDupL ks)) inh = some .none :=
     (effOp_congr_metas (d := .inner s f m ks) (d' := .inner s { dflt := f.dflt, new := true } m (revDupL ks)) rfl).trans hop
   have hrev : revNode S inh (revDup (.inner s f m ks)) = .ok c' := by
     simp only [DNode.sid] at hk
     simp only [revDup, revNode, hk, Bool.false_eq_true, ↓reduceIte, hopt, hci, hR]
     rfl
-  have hopc' : effOp inh c' = some .none :=
+  have hopc' : effOp c' inh = some .none :=
     (effOp_congr_metas (d := .inner s f m ks) (d' := c') rfl).trans hop
-  have hcic' : childInh inh c' = childInh inh (.inner s f m ks) :=
+  have hcic' : childInhOf c' inh = childInhOf (.inner s f m ks) inh :=
     childInh_congr_metas (d := .inner s f m ks) (d' := c') rfl
   have hmatch : ∀ y, matchP S c' y = matchP S (.inner s f m ks) y := fun y =>
     matchP_of_same_keys (d := .inner s f m ks) (d' := c') hd.ndi rfl rfl hRk y
@@ -835,7 +835,7 @@ theorem nodeRev_none_inner {S : Schema} (K : KeyOrder S) {s : Nat} {f : Flags} {
       rw [h1]
       exact normN_setKids_inner hxt hnorm
 
-theorem listRev_nil (S : Schema) : ListRevSpec S [] := by
+theorem listRev_nil (S : Schema) : ListRevSpec S fx [] := by
   intro n hp inh L leading _ hgL _
   have hdk : dk S leading [] = [] := by cases leading <;> simp [dk, noKeys]
   refine ⟨[], rfl, rfl, rfl, rfl, L, by rw [hdk]; rfl, hgL, rfl, fun _ _ _ => rfl, ?_⟩
@@ -848,8 +848,8 @@ theorem matchP_false_symm {S : Schema} (K : KeyOrder S) {x y : DNode} (hx : Dom 
   exact h
 
 /-- a sibling list of diff nodes: the first node, then the rest on what the first node left -/
-theorem listRev_cons {S : Schema} (K : KeyOrder S) {c : DNode} {cs : List DNode} (hc : NodeRevSpec S c)
-    (hcs : ListRevSpec S cs) : ListRevSpec S (c :: cs) := by
+theorem listRev_cons {S : Schema} (K : KeyOrder S) {c : DNode} {cs : List DNode} (hc : NodeRevSpec S fx c)
+    (hcs : ListRevSpec S fx cs) : ListRevSpec S fx (c :: cs) := by
   intro n hp inh L leading hh hgL hex
   have hhc : c.height ≤ n := Nat.le_trans (Nat.le_max_left ..) hh
   have hhcs : heightL cs ≤ n := Nat.le_trans (Nat.le_max_right ..) hh
@@ -941,10 +941,10 @@ theorem listRev_cons {S : Schema} (K : KeyOrder S) {c : DNode} {cs : List DNode}
 
 mutual
 /-- every exact diff node is reversed correctly -/
-theorem nodeRev {S : Schema} (K : KeyOrder S) : ∀ c : DNode, NodeRevSpec S c
+theorem nodeRev {S : Schema} (K : KeyOrder S) : ∀ c : DNode, NodeRevSpec S fx c
   | .inner s f m ks => by
     intro n hp inh e hh hge hex
-    cases hop : effOp inh (.inner s f m ks) with
+    cases hop : effOp (.inner s f m ks) inh with
     | none =>
       simp only [exactE, hop, Bool.and_eq_true] at hex
       cases e <;> simp at hex
@@ -958,7 +958,7 @@ theorem nodeRev {S : Schema} (K : KeyOrder S) : ∀ c : DNode, NodeRevSpec S c
       | none => exact nodeRev_none_inner K (listRev K ks) hh hge hex hop
   | .term s f m v => by
     intro n hp inh e hh _ hex
-    cases hop : effOp inh (.term s f m v) with
+    cases hop : effOp (.term s f m v) inh with
     | none =>
       simp only [exactE, hop, Bool.and_eq_true] at hex
       cases e <;> simp at hex
@@ -969,7 +969,7 @@ theorem nodeRev {S : Schema} (K : KeyOrder S) : ∀ c : DNode, NodeRevSpec S c
       | replace => exact nodeRev_replace K hh hex hop
       | none => exact nodeRev_none_term K hh hex hop rfl
 /-- every exact sibling list of diff nodes is reversed correctly -/
-theorem listRev {S : Schema} (K : KeyOrder S) : ∀ D : List DNode, ListRevSpec S D
+theorem listRev {S : Schema} (K : KeyOrder S) : ∀ D : List DNode, ListRevSpec S fx D
   | [] => listRev_nil S
   | c :: cs => listRev_cons K (nodeRev K c) (listRev K cs)
 end
